@@ -230,8 +230,9 @@ ValidNow(k, v, F, M) ==
        LET n == k.n IN
        IF Producers(n) # {} THEN /\ v.k \notin {"FailedInput", "MissingInput"}
                                  (* a produced directory node carries the tree signature of what is there now (its *)
-                                 (* signature sub-rule is one of its recorded dependencies)                           *)
-                                 /\ (v.k = "DirectoryTreeSignature" => v = VTreeSig(TreeObs(F, PathOf(n), <<>>)))
+                                 (* signature sub-rule is one of its recorded dependencies); the signature is the one *)
+                                 (* an input directory of the same path has, so dropping the producer changes nothing  *)
+                                 /\ (v.k = "DirectoryTreeSignature" => v = VTreeSig(<<VInvalid, TreeObs(F, PathOf(n), <<>>)>>))
        ELSE CASE NodeRec(n).kind = "virtual" -> v.k = "VirtualInput"
               [] NodeRec(n).kind = "file" ->
                    IF Exists(F, PathOf(n)) THEN v = VExisting(Info(F, PathOf(n))) ELSE v.k = "MissingInput"
@@ -335,7 +336,7 @@ RunRule(k, S0, reason, inp) ==
            ELSE LET c == ProducerOf(n)
                     S1 == Ensure(CK(c), S)
                     rv == ResultForOutput(c, n, Get(S1.mem, CK(c)).val)
-                IN Finish(S1, k, IF NodeRec(n).kind = "dir" /\ rv.k = "ExistingInput" THEN VTreeSig(TreeObs(S1.fs, PathOf(n), <<>>)) ELSE rv,
+                IN Finish(S1, k, IF NodeRec(n).kind = "dir" /\ rv.k = "ExistingInput" THEN VTreeSig(<<VInvalid, TreeObs(S1.fs, PathOf(n), <<>>)>>) ELSE rv,
                           FALSE, <<Dep(CK(c), FALSE)>>)
          ELSE CASE NodeRec(n).kind = "virtual" -> Finish(S, k, VVirtual, FALSE, <<>>)
                 [] NodeRec(n).kind = "file" ->
